@@ -1,4 +1,5 @@
 import GoMailModel.Smtp.Dial
+import GoMailModel.Proofs.TlsFlag
 /-
   C07 — TLS policy and credential confidentiality hold against any server (PARTIAL: the TLS handshake
   and certificate validation are crypto/tls's; they enter the model as a script position).
@@ -55,6 +56,85 @@ theorem mandatory_without_starttls_sends_nothing (cfg : DialCfg) (c : Conn) (enc
     unfold Conn.extension Conn.hello
     simp [hh, he, hx]
   simp [this]
+
+
+/-! ### the smtp package used directly: StartTLS refused, the caller authenticates anyway -/
+
+/-- What `Client.Auth` does with a mechanism whose `Start` refuses: the error is the mechanism's (or the
+    error of the implicit EHLO); `Next` is never asked for a response. -/
+theorem authWith_start_error {σ} (c : Conn) (a : Mech σ) (t : Nat)
+    (h : ∀ c' : Conn, c'.tls = c.tls → c'.serverName = c.serverName → (a.start a.init ⟨c'.serverName, c'.tls, c'.auth⟩).2 = .error t) :
+    (c.authWith a).2.2 = some (.mech t) ∨ ∃ e, c.hello.2 = some e ∧ (c.authWith a).2.2 = some e := by
+  unfold Conn.authWith
+  have hh := ts_hello c
+  rcases hr : c.hello with ⟨c1, r⟩
+  rw [hr] at hh
+  cases r with
+  | some e => right; exact ⟨e, rfl, rfl⟩
+  | none =>
+    left
+    simp only []
+    have h1 : ∀ c2 : Conn, c2 = (if !c1.logAuthData then { c1 with authActive := true } else c1) →
+        (a.start a.init ⟨c2.serverName, c2.tls, c2.auth⟩).2 = .error t := by
+      intro c2 hc2
+      apply h
+      · rw [hc2]; split <;> exact hh.1
+      · rw [hc2]; split <;> exact hh.2
+    have h2 := h1 _ rfl
+    split
+    · rename_i st t' heq
+      rw [heq] at h2
+      simp only [Except.error.injEq] at h2
+      subst h2
+      rfl
+    · rename_i st mech resp heq
+      rw [heq] at h2
+      simp at h2
+
+/-- **A refused STARTTLS does not unlock the password.** smtp.Client used directly, any connection that
+    is not TLS, any server script: if the server did not answer the STARTTLS command with 220 (a 4yz or
+    5yz reply, garbage, a disconnect, silence, a failed implicit EHLO) and the caller goes on to
+    `Auth(PlainAuth(...))` for a server that is not localhost, Auth returns the mechanism's
+    "unencrypted connection" error (or the EHLO error) and no SASL response is ever produced. -/
+theorem refused_starttls_does_not_unlock_plain (c : Conn) (identity user pass host : Bytes)
+    (h0 : c.tls = false) (hl : isLocalhost c.serverName = false)
+    (hrefused : ∀ r, (c.hello.1.cmd .starttls (sb "STARTTLS") 220).2 ≠ .ok r) :
+    (c.startTLS.1.authWith (plainMech identity user pass host false)).2.2 = some (.mech errUnencrypted) ∨
+    ∃ e, c.startTLS.1.hello.2 = some e ∧ (c.startTLS.1.authWith (plainMech identity user pass host false)).2.2 = some e := by
+  have hflag : c.startTLS.1.tls = false := by
+    cases hf : c.startTLS.1.tls with
+    | false => rfl
+    | true =>
+      obtain ⟨_, r, hr⟩ := startTLS_sets_flag_only_after_220 c h0 hf
+      exact absurd hr (hrefused r)
+  apply authWith_start_error
+  intro c' ht hn
+  rw [ht, hn, hflag, startTLS_serverName]
+  exact plain_refuses_cleartext identity user pass host c.serverName c'.auth hl
+
+/-- LOGIN likewise -/
+theorem refused_starttls_does_not_unlock_login (c : Conn) (user pass host : Bytes)
+    (h0 : c.tls = false) (hl : isLocalhost c.serverName = false)
+    (hrefused : ∀ r, (c.hello.1.cmd .starttls (sb "STARTTLS") 220).2 ≠ .ok r) :
+    (c.startTLS.1.authWith (loginMech user pass host false)).2.2 = some (.mech errUnencrypted) ∨
+    ∃ e, c.startTLS.1.hello.2 = some e ∧ (c.startTLS.1.authWith (loginMech user pass host false)).2.2 = some e := by
+  have hflag : c.startTLS.1.tls = false := by
+    cases hf : c.startTLS.1.tls with
+    | false => rfl
+    | true =>
+      obtain ⟨_, r, hr⟩ := startTLS_sets_flag_only_after_220 c h0 hf
+      exact absurd hr (hrefused r)
+  apply authWith_start_error
+  intro c' ht hn
+  rw [ht, hn, hflag, startTLS_serverName]
+  exact login_refuses_cleartext user pass host c.serverName c'.auth hl
+
+/-- non-vacuity: STARTTLS answered 454, then Auth(PlainAuth) for mail.example: refused, nothing but the
+    EHLO, STARTTLS and QUIT dialogue on the wire -/
+example :
+    ((newClient { host := sb "mail.example" } [.ok, .ok, .reply 454 (sb "4.7.0 no TLS now"), .ok, .ok]
+        [sb "STARTTLS", sb "AUTH PLAIN LOGIN"]).1.startTLS.1.authWith
+      (plainMech [] (sb "u") (sb "secret") (sb "mail.example") false)).2.2 = some (.mech errUnencrypted) := by decide
 
 /-- non-vacuity -/
 example : autoDiscover (sb "PLAIN LOGIN CRAM-MD5") false = some .cramMD5 := by decide
